@@ -309,6 +309,7 @@ static void exercise(hctx* h, blob f, int mode, const char* desc) {
 
 static void gen_c04(hctx* h) {
     long bases = h->thorough ? 40 : 6, per = h->thorough ? 400 : 60;
+    if (h->shards > 1) bases = (bases + h->shards - 1) / h->shards;
     static const int codecs[] = { 0, 1, 2, 6, 7, -1 };
     long kinds[3] = { 0, 0, 0 };
     for (long b = 0; b < bases; b++) {
